@@ -3,6 +3,7 @@
 package extendeddaemonsetreplicaset
 
 import (
+	appsv1 "k8s.io/api/apps/v1"
 	"k8s.io/apimachinery/pkg/util/intstr"
 
 	"context"
@@ -667,4 +668,54 @@ func ZZ_C11_canaryRoleFaults() {
 	}
 	nondet.Observe("canaryPods", canaryPods)
 	nondet.Assert("C11.canary-role.converges", canaryPods == 1 && len(c.Pods) == 2)
+}
+
+// ZZ_C11_migrationReadFaults: "if any single API call made during a reconcile fails ... none of the safety
+// properties is violated" during a declared migration: the ExtendedDaemonSet names the old DaemonSet
+// `legacy`, whose pods still hold both nodes; the active replica set is synced twice (one minute apart)
+// with every read arbitrarily rejected in the first sync.  No ExtendedDaemonSet pod is created next to a
+// running DaemonSet pod, and at most maxUnavailable (1) DaemonSet pod is deleted per sync.
+func ZZ_C11_migrationReadFaults() {
+	c, ds, rsNew, _ := zzStore(2)
+	ds.Status.ActiveReplicaSet = rsNew.Name
+	ds.Annotations[datadoghqv1alpha1.ExtendedDaemonSetOldDaemonsetAnnotationKey] = "legacy"
+	sel := &metav1.LabelSelector{MatchLabels: map[string]string{"app": "agent"}}
+	c.DaemonSets = append(c.DaemonSets, &appsv1.DaemonSet{ObjectMeta: metav1.ObjectMeta{Name: "legacy", Namespace: zzNS}, Spec: appsv1.DaemonSetSpec{Selector: sel}})
+	ctrl := true
+	for i := 0; i < 2; i++ {
+		c.Pods = append(c.Pods, &corev1.Pod{
+			ObjectMeta: metav1.ObjectMeta{Name: "legacy-" + zzNodeName(i), Namespace: zzNS, Labels: map[string]string{"app": "agent"}, CreationTimestamp: metav1.NewTime(nondet.Base().Add(-24 * time.Hour)),
+				OwnerReferences: []metav1.OwnerReference{{APIVersion: "apps/v1", Kind: "DaemonSet", Name: "legacy", Controller: &ctrl}}},
+			Spec:   corev1.PodSpec{NodeName: zzNodeName(i), Containers: []corev1.Container{{Name: "agent", Image: "agent:legacy"}}},
+			Status: corev1.PodStatus{Phase: corev1.PodRunning, Conditions: []corev1.PodCondition{{Type: corev1.PodReady, Status: corev1.ConditionTrue, LastTransitionTime: metav1.NewTime(nondet.Base().Add(-24 * time.Hour))}}},
+		})
+	}
+	for round := 0; round < 2; round++ {
+		c.InjectReadFaults = round == 0
+		from := len(c.Log)
+		occupied := map[string]bool{}
+		for _, p := range c.Pods {
+			if p.DeletionTimestamp == nil {
+				occupied[fakeapi.PodNode(p)] = true
+			}
+		}
+		_, err := zzReconcile(zzReconciler(c, false), zzNS, rsNew.Name)
+		if round > 0 {
+			nondet.Assert("C11.migration.fault-free-sync-ok", err == nil)
+		}
+		deleted := 0
+		for _, e := range c.Log[from:] {
+			if e.Kind == "Pod" && e.Verb == "create" {
+				nondet.Assert("C11.migration.no-pod-created-beside-a-daemonset-pod", !occupied[e.Node])
+			}
+			if e.Kind == "Pod" && e.Verb == "delete" {
+				deleted++
+			}
+		}
+		nondet.Assert("C11.migration.budget", deleted <= 1)
+		nondet.Observe("deleted"+string(rune('0'+round)), deleted)
+		zzKubelet(c)
+	}
+	c.InjectReadFaults = false
+	nondet.Reach("C11.migration.adoption-proceeds", c.Count("delete", "Pod") >= 1)
 }
